@@ -572,3 +572,95 @@ def check_C11(ctx):
                   "colour shapes), that last-valid-occurrence-wins, the AR/OD rule, clamps and reject-is-a-stutter hold; every sequence is "
                   "spelled twice and decoded by the section's own decoder and by Beatmap, the decoded struct compared field by field with "
                   "the predicted state and the per-line Ok/Err with the predicted verdicts; non-trivial = distinct non-empty sequences")
+
+
+# ----------------------------------------------------------------------------
+def pathcodec_cases(ctx, maxtoks, tokset, cases, fixed=True, force=True, expect_violation=False, inv=None):
+    cfg = dict(spec="Spec", invariants=inv or ["Accepted", "RoundTrip"],
+               constants=dict(MaxToks=str(maxtoks), TokSet='"%s"' % tokset, FixedSep="TRUE" if fixed else "FALSE",
+                              ForceLast="TRUE" if force else "FALSE", Emit="FALSE" if expect_violation else "TRUE"))
+    name = "MC_PathCodec_%s_%d%s" % (tokset, maxtoks, "" if fixed and force else "_pinned")
+    return tlc(ctx, "PathCodec", name, cfg, workers=14, timeout=3000, cases_file=None if expect_violation else cases,
+               expect_violation=expect_violation, count=not expect_violation)
+
+
+def check_C04(ctx):
+    thorough = ctx.tier == "thorough"
+    for m in ("PathString", "PathCodec"):
+        sany(ctx, m)
+    cases = os.path.join(ctx.work, "pathcodec.ndjson")
+    pathcodec_cases(ctx, 6 if thorough else 5, "full", cases)
+    # the pinned encoder writes `<letter>,` for a typed last control point: the decoder model rejects that
+    pathcodec_cases(ctx, 4, "full", None, fixed=False, force=False, expect_violation=True, inv=["Accepted"])
+    summ = harness(ctx, ["pathcodec", "replay", "--prop", "C04"], cases_file=cases, name="pathcodec", timeout=3600)
+    report_mismatches(ctx, summ, "the encoder writes a slider path its own decoder rejects / differs from PathString.EncPath")
+    # every encoded line of real and generated maps is fed back to its section parser
+    summ = harness(ctx, ["encoder", "relations", "--prop", "C04", "--tier", ctx.tier], name="encoder-rel", timeout=7000)
+    report_mismatches(ctx, summ, "the encoder's output is not accepted line by line / loses records")
+    ctx.assumptions += ["number formatting (Display of f32/f64 round-trips) is a guarantee of the Rust standard library"]
+    return finish(ctx, "model_checking",
+                  "PathCodec.tla composes the path encoder and decoder transcriptions: TLC checks for every decodable token string up to the "
+                  "bound that the encoded path is accepted again; the real encoder's path text is compared token by token with the model's "
+                  "and every line it writes is fed to the section's public parse function; the same line-by-line validation (version line "
+                  "first, each header once in canonical order, every record accepted, object/timing/break/colour counts preserved) runs on "
+                  "the encodings of bundled, generated, hostile and non-chronological maps; non-trivial = distinct decodable path strings / maps")
+
+
+def timingenc_cases(ctx, alpha, gens, maxlines, scroll=True, expect_violation=False):
+    name = "MC_TimingEncode_%s_%s_%d%s" % (alpha, gens, maxlines, "" if scroll else "_pinned")
+    cases = os.path.join(ctx.work, name + ".ndjson")
+    body = cases + ".body"
+    for p in (cases, body):
+        if os.path.exists(p):
+            os.remove(p)
+    cfg = dict(spec="Spec", invariants=["EncAccepted", "RoundTrip", "EmitEncCase"],
+               constants=dict(Alpha="<-" + alpha, Gens="<-" + gens, MaxLines=str(maxlines), Emit="TRUE" if not expect_violation else "FALSE",
+                              ScrollAsVelocity="TRUE" if scroll else "FALSE", EmitEnc="FALSE" if expect_violation else "TRUE"))
+    r = tlc(ctx, "TimingEncode", name, cfg, workers=14, timeout=3000, cases_file=None if expect_violation else body,
+            expect_violation=expect_violation, count=not expect_violation)
+    if expect_violation:
+        return None
+    # TimingLines' own CASE lines (from Finish) are in the same stream: keep the TimingEncode ones (they carry `enc`)
+    with open(cases, "w") as f:
+        f.write(json.dumps({"alpha": r["alpha"]}) + "\n")
+        with open(body) as b:
+            for ln in b:
+                if '"enc":' in ln:
+                    f.write(ln)
+    os.remove(body)
+    return cases
+
+
+def check_C02(ctx):
+    thorough = ctx.tier == "thorough"
+    for m in ("PathString", "PathCodec", "Samples", "SampleCodec", "TimingLines", "TimingEncode"):
+        sany(ctx, m)
+    # (1) slider paths
+    cases = os.path.join(ctx.work, "pathcodec.ndjson")
+    pathcodec_cases(ctx, 6 if thorough else 5, "full", cases)
+    summ = harness(ctx, ["pathcodec", "replay", "--prop", "C02"], cases_file=cases, name="pathcodec", timeout=3600)
+    report_mismatches(ctx, summ, "a slider path does not survive decode -> encode -> decode (outside the listed shapes)")
+    # (2) hit samples (model level: names and banks survive for every bank info x sound x sample point x mania)
+    tlc(ctx, "SampleCodec", "MC_SampleCodec", dict(spec="Spec", invariants=["EncodedAccepted", "NamesAndBanksSurvive", "NodeNamesAndBanksSurvive"],
+        constants=dict(Dummy="0")), workers=14, timeout=1800)
+    # (3) timing points: encoder transcription composed with the decoder
+    plan = [("AlphaVel", "GensModes", 3), ("AlphaAll", "GensTwo", 2)] if thorough else [("AlphaVel", "GensModes", 2), ("AlphaEff", "GensTwo", 2)]
+    for (a, g, n) in plan:
+        f = timingenc_cases(ctx, a, g, n)
+        summ = harness(ctx, ["timingcodec", "replay", "--prop", "C02"], cases_file=f, name="timingcodec", timeout=3600)
+        report_mismatches(ctx, summ, "timing points do not survive decode -> encode -> decode / the encoder differs from TimingEncode")
+    # the pinned encoder (velocity written instead of scroll speed in taiko/mania) violates the model's round trip
+    timingenc_cases(ctx, "AlphaVel", "GensModes", 2, scroll=False, expect_violation=True)
+    # (4) whole maps: bundled + structured generator, field list of the statement
+    summ = harness(ctx, ["encoder", "relations", "--prop", "C02", "--tier", ctx.tier], name="encoder-rel", timeout=7000)
+    report_mismatches(ctx, summ, "a map does not survive decode -> encode -> decode on the fields the statement lists")
+    ctx.assumptions += ["number formatting: Display of f32/f64 is shortest round-trip (Rust standard library guarantee), not modelled",
+                        "control-point shapes the legacy text cannot carry are listed in PathCodec!Unencodable and in known_findings.json",
+                        "times closer than f64::EPSILON (0 and 1e-17) are outside the claim (known finding)"]
+    return finish(ctx, "model_checking",
+                  "three codec compositions are model-checked: PathCodec (every decodable path token string: Dec(Enc(Dec(s))) = Dec(s) outside the "
+                  "listed shapes), SampleCodec (names and banks survive for every bank info x sound x sample point) and TimingEncode (every "
+                  "chronological line sequence in four modes: identical timing points and velocity/kiai/scroll timelines); the real encoder's "
+                  "path tokens and [TimingPoints] lines are compared with the models' predictions and the second decode with the predicted "
+                  "result; whole bundled and generated maps are round-tripped and compared on the statement's field list (twice: stability); "
+                  "non-trivial = distinct grammatical paths / line sequences / maps")
